@@ -61,6 +61,21 @@ def gen(rng, tier, i):
         li = lis[rng.choice(["http", "socks"])]
         hs, proto = sc.client_handshake(li, oip, sink_port, variant="5p" if li["kind"] == "socks" else None)
         sc.add_client("bp%d" % k, li, hs + [op("send", fill=[77 + k, 3_000_000], timeout_ms=3600000, on_fail="continue"), op("sleep", ms=3600000)], start_ms=t_stall + 10 + k, background=True)
+    # requests whose *upstream* never answers: a destination that swallows the SYN (direct connector; the connect gives up
+    # after 127 s), or an upstream proxy that accepts the connection and never replies to the CONNECT
+    dead_ip = sc.origin_ip()
+    silent = sc.add_http_connector("silent")
+    silent["server"]["default_ops"] = [op("sleep", ms=3600000)]
+    sc.cfg["rules"].insert(0, {"target": "silent", "filter": "request.target.port == 9"})
+    upstalled = []
+    for k in range(rng.choice([0, 0, 1, 2])):
+        li = lis[rng.choice(["http", "socks"])]
+        how = rng.choice(["syn", "silent-proxy"])
+        hs, proto = sc.client_handshake(li, dead_ip if how == "syn" else oip, 81 if how == "syn" else 9, variant="5p" if li["kind"] == "socks" else None)
+        sc.add_client("us%d" % k, li, [dict(o, on_fail="continue", timeout_ms=3600000) for o in hs] + [op("sleep", ms=3600000)], start_ms=t_stall + 20 + k, background=True)
+        upstalled.append({"cid": "us%d" % k, "how": how})
+    if any(u["how"] == "syn" for u in upstalled):
+        sc.faults.append({"at_ms": 0, "kind": "stall", "ip": dead_ip})
     # API calls and canaries
     t0 = t_stall + 2000
     calls = []
@@ -86,7 +101,7 @@ def gen(rng, tier, i):
         canaries.append({"cid": cid if lk != "quic" else cid + "/s0", "lk": lk, "proto": proto, "at": at, "phase": phase})
 
     canary(max(5, t_stall - 15), "before")
-    rules_body = [{"target": "d"}]
+    rules_body = [dict(r) for r in sc.cfg["rules"]]
     for k in range(ncall):
         t += rng.choice([0, 1, 30, 500, 3000])
         m, p = rng.choice(APIS)
@@ -98,7 +113,7 @@ def gen(rng, tier, i):
             canary(t + rng.choice([1, 2, 10, 50]), "during")
     canary(t + 8000, "after")
     sc.meta = {"cls": "st%d/api%d" % (len(stalled), ncall), "cfgkey": "%s/%s/%s" % (cname, "-".join(s["lk"] + str(s["j"]) for s in stalled), "-".join(c["p"].split("/")[-1] for c in calls)),
-               "stalled": stalled, "calls": calls, "canaries": canaries, "keep_ops": True,
+               "stalled": stalled, "upstalled": upstalled, "calls": calls, "canaries": canaries, "keep_ops": True,
                "nondeterministic_bodies": [c["cid"] for c in calls if c["p"].endswith("metrics")]}
     sc.max_ms = t + 8000 + 40000
     return sc.plan(want_events=False)
@@ -166,5 +181,5 @@ def oracle(plan, out):
 def probes(plan, out):
     meta = plan["meta"]
     during = sum(1 for c in meta["canaries"] if c["phase"] == "during")
-    return {"nontrivial": bool(meta["stalled"]) and during > 0, "stalled_clients": len(meta["stalled"]), "api_calls": len(meta["calls"]), "canaries_during": during,
+    return {"nontrivial": bool(meta["stalled"]) and during > 0, "stalled_clients": len(meta["stalled"]), "stalled_upstream_connects": len(meta.get("upstalled", [])), "api_calls": len(meta["calls"]), "canaries_during": during,
             "live_calls": sum(1 for c in meta["calls"] if c["p"].endswith("live"))}
